@@ -174,11 +174,33 @@ class StmtMixin:
         raise Unsupported('assignment target {}'.format(unparse(t)))
 
     def unshared(self, obj, name, st, node):
-        """a local container is updated by rebinding its name to a copy: sound only if no other name holds the same object"""
+        """a local container is updated by rebinding its name to a copy: sound only if nothing else (another name, a
+        container, an instance attribute) holds the same object"""
+        def holds(v, depth=0):
+            if v is obj:
+                return True
+            if depth > 4:
+                return False
+            if isinstance(v, list):
+                return any(holds(x, depth + 1) for x in v)
+            if isinstance(v, dict):
+                return any(holds(x, depth + 1) for x in v.values())
+            if isinstance(v, Record):
+                return any(holds(x, depth + 1) for x in v.values.values())
+            if isinstance(v, Obj) and v.frozen is not None:
+                return any(holds(x, depth + 1) for x in v.frozen.values())
+            return False
         for env in [st.env] + list(st.stack):
             for k, v in env.items():
-                if v is obj and not (env is st.env and k == name):
+                if env is st.env and k == name:
+                    continue
+                if holds(v):
                     raise Unsupported('container {} is updated while {} refers to the same object: {}'.format(
+                        name, k, unparse(node).split('\n')[0]))
+        for oid, attrs in st.heap.items():
+            for k, v in attrs.items():
+                if holds(v):
+                    raise Unsupported('container {} is updated while an instance attribute {} refers to the same object: {}'.format(
                         name, k, unparse(node).split('\n')[0]))
 
     def exec_if(self, s, st):
